@@ -455,7 +455,11 @@ func genTree(t *rapid.T, dirs []string, maxFiles int) []op {
 		if rapid.IntRange(0, 5).Draw(t, "junk") == 0 {
 			ops = append(ops, op{Op: "junk", Path: p, Junk: rapid.SampledFrom([]string{"empty", "text", "noise", "xml"}).Draw(t, "junk_kind")})
 		} else {
-			ops = append(ops, op{Op: "add", Path: p, Font: fonts[rapid.IntRange(0, len(fonts)-1).Draw(t, "font")]})
+			f := fonts[rapid.IntRange(0, len(fonts)-1).Draw(t, "font")]
+			if ws := wideFonts(); len(ws) > 0 && rapid.IntRange(0, 19).Draw(t, "wide") == 0 {
+				f = ws[rapid.IntRange(0, len(ws)-1).Draw(t, "wide_font")]
+			}
+			ops = append(ops, op{Op: "add", Path: p, Font: f})
 		}
 	}
 	return ops
